@@ -94,6 +94,35 @@ pub fn run(ctx: &Ctx) {
         }
     });
     ctx.run.space(json!({"universe": if thorough {"all Unicode scalar values"} else {"boundaries +-1 of \\d, \\w, \\s tables"}, "sets": list.len(), "settings": "the other 58 subsets of the 6 class flags", "cases": list.len() * subsets.len()}));
+    // code points inside a multi-scalar grapheme cluster that grex keeps in one piece (Extend / SpacingMark /
+    // Prepend characters that are neither marks nor "other"): each member is classified on its own
+    {
+        let joiners = ["\u{1f3fb}", "\u{1f3ff}", "\u{e33}", "\u{eb3}", "\u{ff9e}", "\u{ff9f}", "\u{d4e}", "\u{111c2}", "\u{11a3a}"];
+        let partners = ["1", "a", " ", "-", "_", "\u{663}", "\u{e9}", "\u{3000}"];
+        let mut cases: Vec<Vec<String>> = vec![];
+        for j in joiners {
+            for p in partners {
+                cases.push(vec![format!("{p}{j}")]);
+                cases.push(vec![format!("{j}{p}")]);
+                cases.push(vec![format!("{p}{j}{p}")]);
+            }
+        }
+        let cfgs: Vec<Cfg> = (1..64u32).map(|s| {
+            let mut b = 0;
+            for (i, f) in [D, ND, S, NS, W, NW].iter().enumerate() {
+                if s & (1 << i) != 0 {
+                    b |= f;
+                }
+            }
+            Cfg::new(b)
+        }).collect();
+        par_for(cases.len(), |i| {
+            for c in &cfgs {
+                crate::core::check_spec_eq(ctx, "C09", &cases[i], c);
+            }
+        });
+        ctx.run.space(json!({"universe": "cluster joiners {U+1F3FB, U+1F3FF, U+0E33, U+0EB3, U+FF9E, U+FF9F, U+0D4E, U+111C2, U+11A3A} next to {1, a, space, -, _, U+0663, e-acute, U+3000}: pj, jp, pjp as one test case", "sets": cases.len(), "settings": "all 63 non-empty class subsets; oracle = spec (per-code-point classes) by complete product exploration", "cases": cases.len() * cfgs.len()}));
+    }
     // distinct_nontrivial: exact count of converted cases; each (scalar, flag set) is enumerated exactly once,
     // so the cases are distinct by construction and are counted rather than hashed
     let n = converted.load(Ordering::Relaxed);
